@@ -48,7 +48,9 @@ CLAIMED = {
        "commit discards the pending one, at most one pending commit, only commits of the current epoch are accepted, stale detached secrets are rejected and leave the "
        "world unchanged, every epoch move is exactly +1. Tie: every op sequence up to depth 4 (quick, 12k sequences) / 5 (thorough, 171k) is executed on real groups "
        "(cloned at each DFS node) and replayed on the compiled model; per op ok/err and every member's (epoch, state class, pending flag) are compared; direct oracle: "
-       "a failing op changes nothing, epochs move by 0/+1.",
+       "a failing op changes nothing, epochs move by 0/+1. The model distinguishes commits with / without an update path (an own path-less commit is processed by its author like a foreign one), "
+       "commits that remove the receiver (it stays in its state and its pending commit is discarded — defect F34, fixed), and re-init commits (whoever installs one is frozen: "
+       "frozen_rejects, frozen_forever; removed_member_never_accepted); four further DFS configurations build these kinds (PSK-only, removal of a racer / of the passive member, re-init).",
   note="Trusted: Lean kernel; hand model validated exhaustively at the stated depth; enumerated commits are empty (content covered elsewhere). The model abstracts the "
        "error kind of a same-epoch commit from another branch (rejected cryptographically).",
   ref="DESIGN.md §4 C11"),
@@ -57,7 +59,9 @@ CLAIMED = {
   text="Theorems MlsVerif.Props.C16: a ciphertext of epoch m is admitted by an observer at epoch e with jitter j iff e <= m + j (window_exact), handshake messages only in "
        "the current epoch, the bound never underflows for any u64 epoch/jitter (no_underflow), jitter >= epoch admits everything, monotone in jitter, wrong group/version "
        "rejected. Tie: up to 6 observers per random history with public handshake (started at random epochs, every jitter class incl. > epoch, 2^63, 2^64-1, snapshot/"
-       "restore; own proposal cache by the builder's DEFAULT or application-side cache with cache_proposals(false)) must equal the members' context, roster and tree after every commit and must never panic; every ciphertext delivery is an `adm` row replayed on the model.",
+       "restore; own proposal cache by the builder's DEFAULT or application-side cache with cache_proposals(false)) must equal the members' context, roster and tree after every commit and must never panic; every ciphertext delivery is an `adm` row replayed on the model; "
+       "application content framed as a signed and MACed PublicMessage (hook verif_public_application_message) is delivered to observers and members: `adm … pub` rows on "
+       "checkMetadataW (public_application_rejected, earlier_errors_win).",
   note="Trusted: Lean kernel, model validated by the `adm` correspondence, harness oracle for 'tracks the members'. That the observer's commit processing equals the members' "
        "is shown by the oracle and by the shared tree-layer model (C01/C08), not by a separate theorem. External proposals issued by the observer are not generated yet.",
   ref="DESIGN.md §4 C16"),
@@ -209,7 +213,9 @@ CLAIMED = {
        "epoch_binds_inputs / epoch_binds_psk_list / welcome_binds_psk_list (every secret of the new epoch and the Welcome key and nonce determine joiner secret, context and PSK list), "
        "holders_agree, too_many_psks_rejected; FreePsk is satisfiable (term-algebra Prim). Tie: per quick run 200 PSK commits on real members (external / resumption, by value / by reference, "
        "1-4 PSKs, per-member same / different / missing value, retention and join epoch) with the direct oracle (exactly the holders advance and agree; others reject unchanged; joiner needs the "
-       "PSKs) and ~1.6k rows where the compiled model recomputes psk_secret and the epoch secrets byte for byte.",
+       "PSKs) and ~1.6k rows where the compiled model recomputes psk_secret and the epoch secrets byte for byte. MlsVerif.Props.C18Repo: the repository's own lookup path for resumption "
+       "secrets (Repo.resumptionSecret) returns what the epoch lookup returns (hence available exactly inside the retention window of C19), is read-only, and a PSK of another group never "
+       "comes out of this group's caches (fix F32); tie: `repo.psk` rows of the storage scenarios (hook verif_resumption_secret_available) on both providers.",
   note="Trusted: Lean kernel; injective-KDF idealisation (a real hash is not injective: the theorem is the symbolic statement); Lean HKDF reference for the byte rows; harness.",
   ref="DESIGN.md §4 C18"),
  "C12": dict(
